@@ -361,22 +361,46 @@ theorem findAttr_of_mem (as : List Attr) (h : UniqueNames as) (a : Attr) (ha : a
 def emptyLike (a : Attr) : Attr :=
   { name := a.name, dflt := a.dflt, st := match a.st with | .dense _ => .dense [] | .sparse _ => .sparse [] }
 
-def createStep (as : List Attr) (c : ECont) (k : String) : ECont := econtCreate c k (attrIsDense as k) (attrDflt as k)
+/-- one iteration of `for attr_name in self.edges.attributes`: the TRANSLATED `create_attribute` on the new container -/
+def createStep (as : List Attr) (c : ECont) (k : String) : ECont :=
+  Generated.C02B.dcCreateAttribute c k (attrIsDense as k) (some (attrDflt as k)) none
 
-theorem createStep_mem (as : List Attr) (h : UniqueNames as) (a : Attr) (ha : a ∈ as) (l : List Attr) :
-    createStep as ([], l) a.name = ([], l ++ [emptyLike a]) := by
-  unfold createStep econtCreate attrIsDense attrDflt emptyLike
+theorem attrDictSet_fresh (l : List Attr) (n : String) (a : Attr) (h : hasAttr l n = false) : attrDictSet l n a = l ++ [a] := by
+  unfold attrDictSet; rw [h]; rfl
+
+theorem hasAttr_map_emptyLike (l : List Attr) (n : String) : hasAttr (l.map emptyLike) n = hasAttr l n := by
+  unfold hasAttr; simp [List.any_map, Function.comp_def, emptyLike]
+
+theorem hasAttr_false_of_not_mem (l : List Attr) (n : String) (h : n ∉ l.map (·.name)) : hasAttr l n = false := by
+  unfold hasAttr
+  rw [List.any_eq_false]
+  intro a ha hh
+  exact h (List.mem_map.mpr ⟨a, ha, by simpa using hh⟩)
+
+theorem createStep_mem (as : List Attr) (h : UniqueNames as) (a : Attr) (ha : a ∈ as) (l : List Attr)
+    (hl : hasAttr l a.name = false) : createStep as ([], l) a.name = ([], l ++ [emptyLike a]) := by
+  unfold createStep Generated.C02B.dcCreateAttribute attrIsDense attrDflt emptyLike
   rw [findAttr_of_mem as h a ha]
-  cases hst : a.st <;> simp [hst]
+  cases hst : a.st <;> simp [hst, attrDictSet_fresh _ _ _ hl]
 
-theorem create_fold (as : List Attr) (h : UniqueNames as) (suf : List Attr) (hs : ∀ a ∈ suf, a ∈ as) (l : List Attr) :
-    (suf.map (·.name)).foldl (createStep as) ([], l) = ([], l ++ suf.map emptyLike) := by
-  induction suf generalizing l with
-  | nil => simp
+theorem create_fold (as : List Attr) (h : UniqueNames as) (pre suf : List Attr) (hsplit : as = pre ++ suf) :
+    (suf.map (·.name)).foldl (createStep as) ([], pre.map emptyLike) = ([], as.map emptyLike) := by
+  induction suf generalizing pre with
+  | nil => simp [hsplit]
   | cons a rest ih =>
     simp only [List.map_cons, List.foldl_cons]
-    rw [createStep_mem as h a (hs a (by simp)), ih (fun x hx => hs x (by simp [hx]))]
-    simp
+    have ha : a ∈ as := by rw [hsplit]; simp
+    have hfresh : hasAttr (pre.map emptyLike) a.name = false := by
+      rw [hasAttr_map_emptyLike]
+      apply hasAttr_false_of_not_mem
+      unfold UniqueNames at h
+      rw [hsplit, List.map_append, List.map_cons] at h
+      have := (List.nodup_append.mp h).2.2
+      intro hm
+      exact this _ hm _ (by simp) rfl
+    rw [createStep_mem as h a ha _ hfresh]
+    have := ih (pre ++ [a]) (by rw [hsplit]; simp)
+    simpa using this
 
 /-- one pass `for name in new_attrs` after edge `i` was kept as the `n`-th edge -/
 def copyStep (as : List Attr) (n i : Nat) (c : ECont) (k : String) : ECont :=
@@ -505,8 +529,8 @@ theorem copied_reindex (surv : List Nat) (i : Nat) (a : Attr) :
 
 /-- one iteration of `for ie in self.id_edges` of the rebuild -/
 def rebuildStep (N : Nat) (as : List Attr) (E : List (Int × Int)) (x : ECont × Nat) (i : Nat) : ECont × Nat :=
-  if validE N (edgeGet E i) then
-    ((as.map (·.name)).foldl (copyStep as x.2 i) (x.1.1 ++ [keyE (edgeGet E i)], x.1.2.map (expandAttr 1)), x.2 + 1)
+  if validE N (E.getD i (0, 0)) then
+    ((as.map (·.name)).foldl (copyStep as x.2 i) (x.1.1 ++ [keyE (E.getD i (0, 0))], x.1.2.map (expandAttr 1)), x.2 + 1)
   else x
 
 theorem rebuild_fold (N : Nat) (as : List Attr) (h : UniqueNames as) (E : List (Int × Int)) (m : Nat) (hm : m ≤ E.length) :
@@ -524,8 +548,8 @@ theorem rebuild_fold (N : Nat) (as : List Attr) (h : UniqueNames as) (E : List (
   | succ m ih =>
     have hlt : m < E.length := by omega
     rw [List.range_succ, List.foldl_append, ih (by omega), List.foldl_cons, List.foldl_nil]
-    have hget : edgeGet E m = E[m] := by
-      unfold edgeGet; rw [List.getD_eq_getElem?_getD, List.getElem?_eq_getElem hlt]; rfl
+    have hget : E.getD m (0, 0) = E[m] := by
+      rw [List.getD_eq_getElem?_getD, List.getElem?_eq_getElem hlt]; rfl
     have htake : E.take (m + 1) = E.take m ++ [E[m]] := List.take_succ_eq_append_getElem hlt
     have hlen : (E.take m).length = m := by simp; omega
     have hsurv : survIdx N (E.take (m + 1)) 0 = survIdx N (E.take m) 0 ++ (if validE N E[m] then [m] else []) := by
